@@ -2,6 +2,7 @@
 //@include head.rs
 //@import ohlcv.rs.tpl
 
+//@export-begin
 // ------------------------------------------------------------------ TR (true range)
 //@extract src/methods/tr.rs struct:TR keepderive
 //@end
@@ -112,5 +113,6 @@ impl Method for ADI {
 	proof { if self.window.cap() > 0 { lemma_sum_slide(self.window.view(), clvv); } }
 //@end
 }
+//@export-end
 } // verus!
 fn main() {}
